@@ -3,6 +3,7 @@ package parser
 import (
 	"errors"
 	"fmt"
+	"go/ast"
 	"go/types"
 	"os"
 	"regexp"
@@ -24,6 +25,10 @@ var (
 
 // parseMethods parses all the methods in an interface type.
 func (p *Parser) parseMethods(intf *intfEntry) ([]*model.MethodEntry, error) {
+	if err := p.typeErrorIn(intf.intf); err != nil {
+		// An ill-typed interface has lost methods: duplicates, members of an unresolved embedded interface.
+		return nil, err
+	}
 	iface := intf.intf.Type().Underlying().(*types.Interface)
 	mset := types.NewMethodSet(iface)
 	methods := make([]*model.MethodEntry, 0)
@@ -40,6 +45,29 @@ func (p *Parser) parseMethods(intf *intfEntry) ([]*model.MethodEntry, error) {
 	}
 
 	return methods, nil
+}
+
+// typeErrorIn returns the first type error that the loader reported inside the declaration of the given type.
+// Type errors elsewhere in the package are tolerated: a setup file may refer to functions that are yet to be generated.
+func (p *Parser) typeErrorIn(obj types.Object) error {
+	for _, decl := range p.file.Decls {
+		genDecl, ok := decl.(*ast.GenDecl)
+		if !ok {
+			continue
+		}
+		for _, spec := range genDecl.Specs {
+			typeSpec, ok := spec.(*ast.TypeSpec)
+			if !ok || typeSpec.Name.Pos() != obj.Pos() {
+				continue
+			}
+			for _, e := range p.pkg.TypeErrors {
+				if typeSpec.Pos() <= e.Pos && e.Pos < typeSpec.End() {
+					return logger.Errorf("%v: %v", p.fset.Position(e.Pos), e.Msg)
+				}
+			}
+		}
+	}
+	return nil
 }
 
 // parseMethod parses a single method in an interface type.
